@@ -122,6 +122,14 @@ class Replayer:
         with open(tf, "w") as f:
             f.write(REPLAY_TEST % "".join('\t\t"%s": %s,\n' % (e, e) for e in entries))
         ov[os.path.join(PKGDIR, "zz_replay_test.go")] = tf
+        # native counterpart of the engine's loop-head entry: replayEvents starts from zzPreGraph when set
+        gsrc = open(os.path.join(PKGDIR, "graph.go")).read()
+        m = re.search(r"func replayEvents\(events \[\]Event\) \(\*Graph, error\) \{\n\tgraph := &Graph\{.*?\n\t\}\n", gsrc, re.S)
+        if m:
+            patched = gsrc[:m.end()] + "\tif zzPreGraph != nil {\n\t\tgraph = zzPreGraph\n\t\tzzPreGraph = nil\n\t}\n" + gsrc[m.end():]
+            gp = os.path.join(self.tmp, "graph_patched.go")
+            open(gp, "w").write(patched)
+            ov[os.path.join(PKGDIR, "graph.go")] = gp
         ovf = os.path.join(self.tmp, "overlay.json")
         json.dump({"Replace": ov}, open(ovf, "w"))
         env = dict(os.environ, GOFLAGS="-mod=mod", GOPROXY="off")
@@ -157,7 +165,7 @@ def load_known(prop):
     if os.path.exists(path):
         for line in open(path):
             line = line.strip()
-            if not line or line.startswith("#"):
+            if not line or line.startswith("#") or line.startswith("fixed:"):
                 continue
             rec = json.loads(line)
             if rec.get("property") == prop and rec.get("status", "known") == "known":
